@@ -46,6 +46,7 @@ struct Agent {
     int term_errno = 0;
     std::deque<Msg> sendq;
     bool refused = false;
+    bool awaited_once = false;
     size_t small_cap = 0;       // byte streams: receive with this capacity (0 = large)
     bool probe_futile = false;  // a probe showed that nothing can progress right now
     bool finish_eagain = false; // the last xcm_finish said EAGAIN and no call has shown readiness since
@@ -94,12 +95,25 @@ struct Loop {
             if (!alive(i)) continue;
             Agent &a = ag[i];
             int cnd = want_cond(a);
-            int rc = x_await(a.ep, cnd);
-            VF_CHECK(rc == 0, "xcm_await(%d) on %s failed: %s", cnd, a.name, errname(errno));
+            // the awaited condition stays in force until changed: an application need not
+            // repeat xcm_await (some do; `reawait` is the plan's choice)
+            if (cnd != a.cond || !a.awaited_once || reawait) {
+                int rc = x_await(a.ep, cnd);
+                VF_CHECK(rc == 0, "xcm_await(%d) on %s failed: %s", cnd, a.name, errname(errno));
+                a.awaited_once = true;
+            }
             a.cond = cnd;
             int fd = x_fd(a.ep);
-            if (g_mode == M_C16)
+            if (g_mode == M_C16) {
                 VF_CHECK(fd == a.ep.fd, "C16: xcm_fd of %s changed from %d to %d", a.name, a.ep.fd, fd);
+                // converse, with kernel-level certainty that the awaited condition is met right now
+                if (!a.is_server && a.established && !a.terminal) {
+                    if ((cnd & XCM_SO_RECEIVABLE) && kernel_readable_bytes(a) > 0)
+                        VF_CHECK(fd_readable(a.ep.fd, 0), "C16: %s (%s) awaits RECEIVABLE and %d bytes are unread in its kernel socket, but its descriptor is not readable", a.name, tp_name(tp), kernel_readable_bytes(a));
+                    if ((cnd & XCM_SO_SENDABLE) && pending_out(a) == 0 && a.pending.empty() && kernel_writable(a) && is_tcp_based(tp) ? !uses_tls(tp) : false)
+                        VF_CHECK(fd_readable(a.ep.fd, 0), "C16: %s (%s) awaits SENDABLE on an established connection with a writable kernel socket, but its descriptor is not readable", a.name, tp_name(tp));
+                }
+            }
         }
         return Outcome::pass();
     }
@@ -357,6 +371,7 @@ struct Loop {
         // xcm_finish); EAGAIN means XCM owes it a wake-up when that changes
         return do_finish(ag[2]);
     }
+    bool reawait = false;
     uint64_t spurious_wakeups = 0;
     int probe_agent = -1;
     uint64_t moved(Agent &a) { const sh_counters *k = sh_cnt(a.ep.tag); return k->send_bytes + k->recv_bytes + k->connect_calls + (sh_connect_unobserved(a.ep.tag) ? 0 : 1000000); }
@@ -523,7 +538,7 @@ struct BlockingClient {
 class EvLoop : public Harness {
 public:
     const char *property() override { return g_mode == M_C04 ? "C04" : g_mode == M_C16 ? "C16" : "C05"; }
-    size_t cfg_len() override { return 14; }
+    size_t cfg_len() override { return 24; }
     size_t step_len() override { return 4; }
     size_t max_steps() override { return 300; }
     void setup() override
@@ -561,6 +576,7 @@ public:
         bool hs_scripts = cfg.ch(2) == 0;
         uint32_t blocking_sel = cfg.ch(6);
         uint32_t seed = cfg.raw();
+        L.reawait = cfg.ch(3) == 0;
         if (g_mode == M_C04 && blocking_sel == 0 && how < 4) return run_blocking(c, L.tp, small, seed, nA, nB);
         if (g_mode == M_C05 && blocking_sel < 4) return run_c05(p, c, L.tp, seed);
 
@@ -776,6 +792,13 @@ public:
                     VF_CHECK(!r || !kernel_quiet(L, a), "C16: %s (%s) awaits RECEIVABLE, xcm_receive has just said EAGAIN and nothing new has arrived - yet its descriptor is readable (sample %d)", a.name, tp_name(L.tp), k);
                 }
                 c.cls("C16:quiet-receivable-after-eagain");
+                // ... and an xcm_finish in between changes nothing
+                int frc = x_finish(a.ep);
+                VF_CHECK(frc == 0, "C16 probe: xcm_finish failed at quiescence: %s", errname(errno));
+                for (int k = 0; k < 3; k++) {
+                    bool r = fd_readable(a.ep.fd, k ? 4 : 0);
+                    VF_CHECK(!r || !kernel_quiet(L, a), "C16: %s (%s) awaits RECEIVABLE; xcm_receive said EAGAIN, xcm_finish had nothing to do, nothing new has arrived - yet its descriptor is readable (sample %d)", a.name, tp_name(L.tp), k);
+                }
             }
             // converse: SENDABLE on an idle established connection is met at once
             VF_CHECK(x_await(a.ep, XCM_SO_SENDABLE) == 0, "xcm_await(SENDABLE) failed");
